@@ -90,7 +90,7 @@ Qed.
 Print Assumptions compile_scope_correct_stage1a.
 
 (* ------------------------------------------------------------------------------------------ *)
-From YV Require Import ScopeDefs2 ScopeMach2 ScopeComp2 ScopeComp3 ScopeRel2 ScopeRel3 ScopeSim3.
+From YV Require Import ScopeDefs2 ScopeMach2 ScopeComp2 ScopeDefsN ScopeCompN ScopeFactsN ScopeRel2 ScopeRelN ScopeSimN.
 
 (* ---- inclusions between the fragments ---- *)
 Lemma expr3_expr2 : forall e, expr3 e = true -> expr2 e = true.
@@ -107,7 +107,7 @@ Proof.
 Qed.
 
 Lemma bstmt3_bstmt2 : forall s, bstmt3 s = true -> bstmt2 s = true.
-Proof. intros s H. destruct s as [x e|x e|e|e|l|f ps l|x ps l|i n l|a c t e| | |e|e|l x h|l|v e]; cbn in H |- *; try discriminate; now apply expr3_expr2. Qed.
+Proof. intros s H. destruct s; cbn in H |- *; try discriminate; now apply expr3_expr2. Qed.
 
 Lemma forallb_imp : forall (A : Type) (f g : A -> bool), (forall a, f a = true -> g a = true) ->
   forall l, forallb f l = true -> forallb g l = true.
@@ -132,46 +132,74 @@ Proof.
   apply andb_prop in H as [H1 H2]. now rewrite (IH _ false H1), (go _ H2).
 Qed.
 
-Lemma stmt4_stmt2w : forall s top, stmt4 top s = true -> stmt2w s = true.
+(* closure bodies of one function level are bodies of the n-level fragment; on them the two notions of
+   "mentions x" coincide *)
+Lemma bstmt2_stmt5 : forall s, bstmt2 s = true -> stmt5 true false s = true.
+Proof.
+  fix IH 1. intros s H. destruct s as [x e|x e|e|e|l|f ps l|x ps l|i n l|a c t e| | |e|e|l x h|l|v e]; cbn in H |- *; try discriminate; try exact H.
+  revert H. generalize l. fix go 1. intros l0 H. destruct l0 as [|a r]; [reflexivity|]. cbn in H |- *.
+  apply andb_prop in H as [H1 H2]. now rewrite (IH _ H1), (go _ H2).
+Qed.
+
+Lemma bstmt2_mentions : forall x s, bstmt2 s = true -> s_mentionsN x s = s_mentions x s.
+Proof.
+  intros x. fix IH 1. intros s H. destruct s as [y e|y e|e|e|l|f ps l|y ps l|i n l|a c t e| | |e|e|l y h|l|v e]; cbn in H |- *; try discriminate; try reflexivity.
+  revert H. generalize l. fix go 1. intros l0 H. destruct l0 as [|a r]; [reflexivity|]. cbn in H |- *.
+  apply andb_prop in H as [H1 H2]. now rewrite (IH _ H1), (go _ H2).
+Qed.
+
+Lemma bstmt2_mentions_list : forall x l, forallb bstmt2 l = true -> existsb (s_mentionsN x) l = existsb (s_mentions x) l.
+Proof.
+  intros x l. induction l as [|a r IH]; intros H; [reflexivity|]. cbn in H |- *. apply andb_prop in H as [H1 H2].
+  now rewrite (bstmt2_mentions x _ H1), (IH H2).
+Qed.
+
+Lemma stmt4_stmt5 : forall s top, stmt4 top s = true -> stmt5 false top s = true.
 Proof.
   fix IH 1. intros s top H. destruct s as [x e|x e|e|e|l|f ps l|x ps l|i n l|a c t e| | |e|e|l x h|l|v e]; cbn in H |- *; try discriminate; try exact H.
   - revert H. generalize l. fix go 1. intros l0 H. destruct l0 as [|a r]; [reflexivity|]. cbn in H |- *.
     apply andb_prop in H as [H1 H2]. now rewrite (IH _ false H1), (go _ H2).
-  - now apply andb_prop in H as [H1 _].
+  - exact (forallb_imp _ _ _ bstmt2_stmt5 _ H).
+  - apply andb_prop in H as [H1 H2]. rewrite (forallb_imp _ _ _ bstmt2_stmt5 _ H1). cbn.
+    now rewrite (bstmt2_mentions_list x l H1).
 Qed.
 
-(* STAGE 1 (general form; one function level).
-   Script level: var / assignment / print / expression statements / blocks (any nesting) /
-     `var f = |params| { body };` / `fun f(params) { body }`.
-   Closure bodies: var declarations, nested blocks (so body locals, scope ends and Pop inside a call frame),
-     assignments (to parameters, body locals, captured variables, globals), prints, expression statements, return.
-   Expressions: literals, variables, +, calls f(args) with arbitrary fragment expressions as arguments.
-   Self reference: `fun f` may call / capture itself (a captured local in a block, a global at script level);
-     `var x = || .. x ..` may mention x at script level (a global then); in a block it may not (there the real
-     resolver skips the uninitialised x and falls through to the global x - notes/C06.md, "Observation").
-   Still one function level: no function definitions inside closure bodies. *)
-Theorem compile_scope_correct_stage1g : forall cf p funs fuel st en,
-  forallb (stmt4 true) p = true -> compile_scope cf p = Some funs ->
+(* STAGE 2: nested function levels, to any depth (fragment `stmt5 false true` of ScopeDefsN.v).
+   Script level and function bodies alike: var / assignment / print / expression statements / blocks (any nesting) /
+     `var f = |params| { body };` / `fn f(params) { body }`; in bodies also `return e`.
+   A closure created inside a closure body captures locals of that body (is_local = true; the captured flag makes the
+   scope end, or the return, close the upvalue inside the call frame) and variables of functions further out through
+   the enclosing closure's own upvalues (is_local = false, any number of levels: Parser::resolve_upvalue recursive);
+   the variable is shared by the declaring scope and all closures at all levels, while its frame is live and after it
+   has returned.  Self reference as in stage 1 (`var x = || .. x ..` only at the top level of the script). *)
+Theorem compile_scope_correct_stage2 : forall cf p funs fuel st en,
+  forallb (stmt5 false true) p = true -> compile_scope cf p = Some funs ->
   exec_list fuel p [] true s_empty = (st, en, CNorm) ->
   exists n, forall k, Gen.run_funs bk_m cf (n + k) funs = eval_cells_fuel fuel p.
 Proof.
   intros cf p funs fuel st en Hp Hc He.
-  destruct (compile_scope_stage1_shape_w cf p funs (forallb_imp _ _ _ (fun s => stmt4_stmt2w s true) _ Hp) Hc)
-    as (code & L' & fs' & Hcl & Hfuns).
+  destruct (compile_scope_stage2_shape5 cf p funs Hp Hc) as (code & L' & fs' & Hcl & Hfuns).
   set (fn := List.length fs').
   assert (Hfnlen : List.length funs - 1 = fn) by (rewrite Hfuns, app_length; cbn; unfold fn; lia).
   assert (Hcode : code_of funs fn = (code ++ [INil; IReturn])%list).
   { unfold code_of, fn. rewrite Hfuns, app_nth2 by lia. now rewrite Nat.sub_diag. }
-  destruct (sim3_all cf funs fuel) as (_ & _ & _ & _ & HL).
+  destruct (simN_all cf funs fuel) as (_ & _ & HL).
   pose proof (MS2_start funs) as HM0. rewrite Hfnlen in HM0.
-  assert (HS0 : STO3 cf funs s_empty [] [] (cv (m_start bk_c funs)) (cn (m_start bk_c funs)) [] []).
+  assert (HS0 : STON cf funs s_empty [] [] (cv (m_start bk_c funs)) (cn (m_start bk_c funs)) [] []).
   { constructor; cbn; [reflexivity|constructor|intros k0 []|intros c Hc0; lia|constructor|reflexivity]. }
-  assert (HLR0 : LRB [] [0] [] 0 [mkLocal None (Some 0) false] []) by constructor.
+  assert (HLR0 : LRBN [] [0] [] 0 [mkLocal None (Some 0) false] []) by (constructor; [constructor|intros []]).
+  assert (HC0 : CTX [] [0] [] 0 [mkLocal None (Some 0) false] [] [] [] [] []).
+  { constructor; [exact HLR0|cbn; lia|constructor|intros j Hj; cbn in Hj; lia|intros x c []]. }
   assert (Hd : depth_le 0 [mkLocal None (Some 0) false]) by (constructor; [cbn; lia|constructor]).
-  destruct (HL _ _ _ _ _ _ He Hp _ _ _ _ _ _ Hcl eq_refl Hd ltac:(exists [mkFunc (code ++ [INil; IReturn]) 0 0]; exact Hfuns)
-              (fun _ => eq_refl) _ _ _ HLR0 eq_refl (m_start bk_c funs) fn [] [] [] [INil; IReturn])
-    as (n1 & m1 & K1 & CL1 & HL1 & G1 & O1 & S1 & M1 & ST1 & LR1 & Len1 & Hcn1 & _).
+  destruct (HL p false true [] [] s_empty st en CNorm He ltac:(left; reflexivity) Hp _ 0 [] [] [] code L' [] [] fs' Hcl eq_refl Hd
+              ltac:(auto) ltac:(split; exact I) ltac:(exists [mkFunc (code ++ [INil; IReturn]) 0 0]; exact Hfuns)
+              [] [] [] [] [0] [] 0 ltac:(exists []; reflexivity) ltac:(constructor) HC0 eq_refl
+              (m_start bk_c funs) fn [] [] [] [] [INil; IReturn] 0)
+    as (n1 & m1 & K1 & HL1 & G1 & O1 & S1 & ST1 & _ & _ & _ & Hcn1 & (CL1 & enb1 & _ & M1 & _)).
   { rewrite Hcode. reflexivity. }
+  { discriminate. }
+  { lia. }
+  { intros i Hi. lia. }
   { exact HM0. }
   { exact HS0. }
   cbn [code_size Nat.add] in M1.
@@ -192,11 +220,22 @@ Proof.
   replace (n1 + 2 + k) with (n1 + 1 + S k) by lia.
   rewrite backend_swap.
   - unfold Gen.run_funs. fold (@run_loop bk_c). rewrite Hrun. unfold eval_cells_fuel. rewrite He.
-    rewrite O3. now rewrite (sto3_o _ _ _ _ _ _ _ _ _ ST1).
+    rewrite O3. now rewrite (stn_o _ _ _ _ _ _ _ _ _ ST1).
   - fold (@run_loop bk_c). rewrite Hrun. exact F3.
 Qed.
 
-Print Assumptions compile_scope_correct_stage1g.
+Print Assumptions compile_scope_correct_stage2.
+
+(* STAGE 1 in its general form (one function level: parameters and arguments, declarations and blocks inside closure
+   bodies, self reference): a corollary of stage 2 *)
+Corollary compile_scope_correct_stage1g : forall cf p funs fuel st en,
+  forallb (stmt4 true) p = true -> compile_scope cf p = Some funs ->
+  exec_list fuel p [] true s_empty = (st, en, CNorm) ->
+  exists n, forall k, Gen.run_funs bk_m cf (n + k) funs = eval_cells_fuel fuel p.
+Proof.
+  intros cf p funs fuel st en Hp. apply compile_scope_correct_stage2.
+  revert Hp. apply forallb_imp. intros s. apply stmt4_stmt5.
+Qed.
 
 (* STAGE 1 as first proved (no parameters, closure bodies without locals, no self reference): a corollary *)
 Corollary compile_scope_correct_stage1 : forall cf p funs fuel st en,
@@ -255,3 +294,30 @@ Example stage1g_example_ok :
   eval_cells stage1g_example = "23|31#ok"%string /\
   run_m (mkCfg 256 256 true true false) stage1g_example = "23|31#ok"%string.
 Proof. split; [reflexivity|]. split; [reflexivity|]. split; [eexists; vm_compute; reflexivity|]. split; vm_compute; reflexivity. Qed.
+
+(* nested function levels: a block local captured by a function (v2) and, through v2's upvalue, by a function defined
+   inside it (v5) and by a lambda one level further in (v6); a body local (v4) captured by v5 / v6 and by a lambda in
+   a nested block of the body (CloseUpvalue inside the call frame at the block end and at the return); closures
+   escaping from two levels and called after their frames are gone *)
+Definition stage2_example : prog :=
+  [ SLam 9 [] [SReturn (ELit 0)];
+    SBlock [ SDecl 1 (ELit 10);
+      SFun 2 [3] [ SDecl 4 (EAdd (EVar 3) (EVar 1));
+                   SFun 5 [] [ SAssign 4 (EAdd (EVar 4) (ELit 1)); SAssign 1 (EAdd (EVar 1) (ELit 100));
+                               SLam 6 [7] [SReturn (EAdd (EVar 4) (EAdd (EVar 1) (EVar 7)))];
+                               SReturn (EVar 6) ];
+                   SBlock [ SDecl 8 (ELit 5); SLam 10 [] [SAssign 8 (EAdd (EVar 8) (EVar 4)); SReturn (EVar 8)];
+                            SPrint (ECall 10 []); SPrint (ECall 10 []) ];
+                   SReturn (EVar 5) ];
+      SDecl 11 (ECall 2 [ELit 1]);
+      SDecl 12 (ECall 11 []);
+      SPrint (ECall 12 [ELit 1000]);
+      SAssign 9 (ECall 11 []) ];
+    SPrint (ECall 9 [ELit 2000]) ].
+
+Example stage2_example_ok :
+  forallb (stmt5 false true) stage2_example = true /\ forallb (stmt4 true) stage2_example = false /\
+  (exists funs, compile_scope (mkCfg 256 256 true true false) stage2_example = Some funs /\ map f_nups funs = [0; 2; 2; 2; 1; 0]) /\
+  eval_cells stage2_example = "16|27|1122|2223#ok"%string /\
+  run_m (mkCfg 256 256 true true false) stage2_example = "16|27|1122|2223#ok"%string.
+Proof. split; [reflexivity|]. split; [reflexivity|]. split; [eexists; split; vm_compute; reflexivity|]. split; vm_compute; reflexivity. Qed.
